@@ -8,8 +8,10 @@ CONSTANTS
   MaxCands = 1
   SubBeforeExact = TRUE
   Positive = TRUE
+  QSplits = FALSE
 INVARIANT SpecificityOrder
 INVARIANT BestIsFirstMax
 INVARIANT QZeroNeverChosen
 INVARIANT MalformedOnlyValueError
 INVARIANT AcceptsIffPositive
+INVARIANT QPositionIrrelevant
